@@ -66,8 +66,8 @@ CHECKS = {
  "C11": (B, "DFS over map-iteration-order choice points (<= 1/2 deviations); exhaustive call histories (<= 3 calls, four menus) in fresh processes; warm-vs-fresh-process differential over the corpora; in-place URL reuse; entry-point equivalence and repeatability",
          "Every execution with <= d non-default map orders must give the identical result; every history over the menus must reproduce the results of the same calls alone in a fresh process; every corpus document (and an evenly spaced subset of the cases of five other checks) must give the same result in a long-lived worker and in a fresh process; Reader/File/Apply must agree and repeat. Intermittent disagreement is reported, since determinism is the property.",
          "Only range-over-map sites rewritten by the instrumenter are controlled."),
- "C12": (B, "stateless model checking of 2-3 concurrent Apply calls under a cooperative scheduler (preemption-bounded at hook granularity), happens-before race monitor, plus a separate free-running -race pass",
-         "All schedules within the preemption bound are executed on the real code; each thread's result must equal its solo result and no conflicting unsynchronised access pair may occur.",
+ "C12": (B, "stateless model checking of 2-3 concurrent Apply/ApplyForReader/ApplyForURL calls under a cooperative scheduler at three granularities (A: function entries of the root package, unbounded; V: visible operations, unbounded; F: every hook, preemption-bounded), lockset race monitor, plus a separate free-running -race pass",
+         "All schedules within the bounds are executed on the real code for nine hand-written scenarios (shared tree and Options, different pages, logging calls, reader entry, URL entry through an in-process transport, namespace-prefix pages) and for every 16th (thorough: 8th) document of the cross corpus; each thread's result must equal its solo result, shared inputs stay unchanged, and no conflicting unsynchronised access pair may occur.",
          "Sequentially consistent interleavings at hook granularity; dependencies are covered only by the -race pass."),
 }
 
